@@ -367,7 +367,9 @@ class symeig_torchfcn(torch.autograd.Function):
                                **ctx.bck_config)  # (*BAM, na, neig)
 
             # orthogonalize gevecs w.r.t. evecs
-            gevecsA = _ortho(gevecs, evecs, D=None, M=M, mright=True)
+            # (w.r.t. the whole degenerate block for degenerate eigenvalues: the
+            # solution of the singular shifted system is arbitrary inside it)
+            gevecsA = _ortho(gevecs, evecs, D=idx_degen, M=M, mright=True)
 
         # accummulate the gradient contributions
         gaccumA = gevalsA + gevecsA
